@@ -64,6 +64,8 @@ func runC02(w *fw.Worker) {
 			c02Restack(w, i, r)
 		case i%10 == 7:
 			c02Interior(w, i, r)
+		case i%20 == 13:
+			c02Promoted(w, i, r)
 		default:
 			c02Compose(w, i, r)
 		}
@@ -814,4 +816,73 @@ func c02Interior(w *fw.Worker, i int, r *fw.Rand) {
 	if i%400 == 7 {
 		w.Sample(desc)
 	}
+}
+
+// c02hidden is embedded in c02Promo under its unexported type name: its exported fields are promoted, settable and part
+// of the config like any other.
+type c02hidden struct {
+	Extra map[string]int
+	Names []string
+	Lvl   *int
+	Inner c02Retry
+}
+
+type (
+	c02MapA map[string]int
+	c02MapB map[string]int
+)
+
+type c02Promo struct {
+	c02hidden
+	N    int
+	A    c02MapA
+	B    c02MapB // in half of the cases the very map A holds, under another defined type
+	Tail *c02Limits
+}
+
+// c02Promoted: defaults with reference-typed fields promoted from an embedded struct of an unexported type, and one map
+// reachable through two defined map types; the view must equal the defaults, share nothing with them, and writing
+// through it must leave them as their untouched twin. (Before /repo commits de404d5 and 32c3b8d the first shape was
+// copied shallowly and the second made Config panic.)
+func c02Promoted(w *fw.Worker, i int, r *fw.Rand) {
+	shared := r.Bool()
+	seed := r.Intn(1000)
+	mk := func() *c02Promo {
+		lvl, b := seed, seed+1
+		m := map[string]int{"k": seed + 2}
+		p := &c02Promo{c02hidden: c02hidden{Extra: map[string]int{"e": seed + 3}, Names: append(make([]string, 0, 4), fmt.Sprint("n", seed), "x"), Lvl: &lvl, Inner: c02Retry{Max: seed + 4}},
+			N: seed + 5, A: c02MapA(m), Tail: &c02Limits{Max: seed + 6, PerHost: map[string]int{"h": seed + 7}, Burst: &b}}
+		if shared {
+			p.B = c02MapB(m)
+		} else {
+			p.B = c02MapB{"z": seed + 8}
+		}
+		return p
+	}
+	def, twin := mk(), mk()
+	desc := map[string]any{"mode": "promoted-fields-and-defined-map-types", "one_map_under_two_defined_types": shared}
+	w.BeginDesc(i, fmt.Sprintf("%v", desc))
+	ctx, cancel := context.WithCancel(context.Background())
+	defer cancel()
+	d, err := dials.Config(ctx, def)
+	if err != nil {
+		w.Violation(i, "promoted-config:config-failed", err.Error(), desc)
+		return
+	}
+	w.Count("promoted_field_configs", 1)
+	v := d.View()
+	if !reflect.DeepEqual(v, twin) {
+		w.Violation(i, "promoted-config:view-differs-from-defaults", gen.Diff(reflect.ValueOf(twin).Elem(), reflect.ValueOf(v).Elem()), desc)
+		return
+	}
+	if ov := gen.Overlap(gen.Regions(reflect.ValueOf(v)), gen.Regions(reflect.ValueOf(def))); ov != "" {
+		w.Violation(i, "promoted-config:shared-memory:view-vs-defaults", ov, desc)
+		return
+	}
+	gen.Scribble(reflect.ValueOf(v).Elem())
+	if !reflect.DeepEqual(def, twin) {
+		w.Violation(i, "promoted-config:defaults-modified:by-writing-through-the-view", gen.Diff(reflect.ValueOf(twin).Elem(), reflect.ValueOf(def).Elem()), desc)
+		return
+	}
+	w.Distinct(fmt.Sprintf("promoted|%v|%d", shared, seed%50))
 }
